@@ -7,6 +7,8 @@ Model: lean/MaltModel/Rt/Closure.lean; theorems: lean/MaltModel/Props/C09.lean.
    expressions, `__globals__ is`, cell identity per free name, rebinding seen in both directions,
    bound methods, decorators not re-applied, calls binding every parameter kind.
 2. correspondence model <-> code at three levels:
+     L0 the general scoping rule `Scope.allFreevars` vs the real compiler on random nestings of function
+        scopes (parameters, assignments, loads, nonlocal/global declarations)   (c09.scopes)
      L3 `_erase_arg_defaults` on real `ast.arguments`               (c09.erase / c09.shape)
      L1 the real `_PythonFnFactory.create/instantiate` on synthetic entities with arbitrary declared
         free variables / closure tuples (all error branches)         (c09.resolve / c09.instantiate)
@@ -14,7 +16,7 @@ Model: lean/MaltModel/Rt/Closure.lean; theorems: lean/MaltModel/Props/C09.lean.
         ORIGINAL function only, the outcome, `co_freevars` of factory and result, the cell of every free
         name, defaults, globals, parameters, the class predicates   (c09.transform)
 """
-import ast, builtins, importlib.util, inspect, json, logging, os, random, shutil, sys, tempfile, textwrap, types
+import ast, builtins, importlib.util, inspect, json, logging, os, shutil, sys, tempfile, textwrap, types
 import __future__
 import common
 from common import sexp, parse_sexp
@@ -42,6 +44,10 @@ class Scratch:
     def __init__(self):
         self.dir = tempfile.mkdtemp(prefix='c09_')
         self.mods = []
+        # malt's loader writes every generated module with tempfile.NamedTemporaryFile: keep those files in our own
+        # scratch directory too (removed at exit) instead of the shared temp directory
+        self.saved_tempdir = tempfile.tempdir
+        tempfile.tempdir = self.dir
 
     def load(self, name, text):
         path = os.path.join(self.dir, name + '.py')
@@ -57,6 +63,7 @@ class Scratch:
     def close(self):
         for n in self.mods:
             sys.modules.pop(n, None)
+        tempfile.tempdir = self.saved_tempdir
         shutil.rmtree(self.dir, ignore_errors=True)
 
 
@@ -196,7 +203,7 @@ def arguments_sexp(a, R, orig_ids=True):
     cnt = [0]
 
     def dx(e):
-        if isinstance(e, ast.Constant) and e.value is None and getattr(e, '_c09_erased', True) and not orig_ids:
+        if isinstance(e, ast.Constant) and e.value is None and not orig_ids:
             return 'nonec'
         i = cnt[0]; cnt[0] += 1
         return ['orig', i]
@@ -608,7 +615,11 @@ class CaseRunner:
         ent = 'ent'
         special = [ent, 'inner_factory', 'gname'] + extra
         refs = rng.sample(pool + special, rng.choice([0, 1, 2, 3, 5]))
+        if rng.random() < 0.6:      # the usual situation: every declared name is still mentioned somewhere
+            refs = refs + [x for x in declared if x not in refs and rng.random() < 0.7]
         nested_refs = rng.sample(pool + special, rng.choice([0, 0, 1, 2]))
+        if len(refs) > 1 and rng.random() < 0.5:
+            nested_refs = nested_refs + [x for x in declared if x not in refs]
         ann = rng.choice([None, None, 'gname', 'undefined_name'] + declared[:1] + extra[:1])
         ndef = rng.choice([0, 1, 2]); nkw = rng.choice([0, 1])
         params = ['x%d' % k for k in range(2)]
@@ -618,7 +629,7 @@ class CaseRunner:
             if ann and k == 0:
                 s += ': ' + ann
             if k >= len(params) - ndef:
-                s += ' = None' if not (ann and k == 0) else ' = None'
+                s += ' = None'
             ptxt.append(s)
         if nkw:
             ptxt += ['*', 'kk=None']
@@ -692,6 +703,77 @@ class CaseRunner:
             sexp('none' if dflt is None else [objmap(o) for o in dflt]),
             sexp('none' if kwd is None else [[R(k), objmap(v)] for k, v in kwd.items()])),
             sexp(obs), 'instantiate', src)
+
+    # ---------------------------------------------------------------- L0: the general scoping rule vs compile()
+    def scope_case(self, rng, idx):
+        """Random nesting of function scopes (parameters, assignments, loads, nonlocal / global declarations, nested
+        defs); co_freevars of every code object, in preorder, from the real compiler vs `Scope.allFreevars`."""
+        pool = ['a', 'b', 'c', 'd', 'e', 'f']
+        counter = [0]
+
+        def gen(depth, env):
+            name = 'fn%d' % counter[0]; counter[0] += 1
+            params = rng.sample(pool, rng.choice([0, 0, 1, 2]))
+            nl = [x for x in dict.fromkeys(env) if x in pool and x not in params and rng.random() < 0.3]
+            gl = [x for x in pool if x not in params and x not in nl and rng.random() < 0.12]
+            assigned = [x for x in pool if rng.random() < 0.25]
+            loads = [x for x in pool if rng.random() < 0.4]
+            kids_n = 0 if depth >= 3 else rng.choice([0, 1, 1, 2, 3] if depth < 2 else [0, 0, 1, 2])
+            own = params + [x for x in assigned if x not in params and x not in nl and x not in gl]
+            # nested def names are bound here too, but nothing mentions them, so they never matter for the children
+            child_env = [x for x in env if x not in gl] + own
+            kids = [gen(depth + 1, child_env) for _ in range(kids_n)]
+            bound = own + [k['name'] for k in kids]
+            return {'name': name, 'params': params, 'nl': nl, 'gl': gl, 'assigned': assigned, 'loads': loads,
+                    'bound': bound, 'kids': kids}
+
+        def render(sc, ind):
+            I = ' ' * ind
+            L = [I + 'def %s(%s):' % (sc['name'], ', '.join(sc['params']))]
+            B = I + '    '
+            if sc['gl']:
+                L.append(B + 'global ' + ', '.join(sc['gl']))
+            if sc['nl']:
+                L.append(B + 'nonlocal ' + ', '.join(sc['nl']))
+            for x in sc['assigned']:
+                L.append(B + '%s = 0' % x)
+            if sc['loads']:
+                L.append(B + '(%s,)' % ', '.join(sc['loads']))
+            for k in sc['kids']:
+                L += render(k, ind + 4)
+            L.append(B + 'return None')
+            return L
+        root = gen(0, [])
+        src = '\n'.join(render(root, 0)) + '\n'
+        try:
+            mod_code = compile(src, '<c09-scopes>', 'exec')
+        except SyntaxError as e:
+            raise common.InfraError('generated scope nest does not compile: %r\n%s' % (e, src))
+
+        def pre(code):
+            out = [list(code.co_freevars)]
+            for k in code.co_consts:
+                if isinstance(k, types.CodeType):
+                    out += pre(k)
+            return out
+        top = [k for k in mod_code.co_consts if isinstance(k, types.CodeType)][0]
+        observed = pre(top)
+        names = set(pool)
+
+        def collect(sc):
+            names.add(sc['name'])
+            for k in sc['kids']:
+                collect(k)
+        collect(root)
+        R = Ranker(names)
+
+        def sx(sc):
+            return ['scope', [R(x) for x in sc['bound']], [R(x) for x in sc['gl']],
+                    [R(x) for x in sc['loads'] + sc['nl']], [sx(k) for k in sc['kids']]]
+        self.run.case(('L0', src), len(observed) > 1)
+        self.stat('L0:code_objects', len(observed))
+        self.stat('L0:nonempty_freevars', len([o for o in observed if o]))
+        self.add('c09.scopes ' + sexp(sx(root)), sexp([[R(x) for x in o] for o in observed]), 'scopes', src)
 
     # ---------------------------------------------------------------- L3: _erase_arg_defaults
     def erase_case(self, rng, idx):
@@ -801,9 +883,10 @@ def check(run, only_cases=None):
     try:
         cr = CaseRunner(run, scratch)
         quick = run.tier == 'quick'
-        n_rand = 600 if quick else 3000
-        n_l1 = 1500 if quick else 8000
+        n_rand = 400 if quick else 2500
+        n_l1 = 1000 if quick else 6000
         n_l3 = 300 if quick else 1500
+        n_l0 = 1500 if quick else 10000
         cases = []
         if only_cases is not None:
             cases = [('replay', c) for c in only_cases]
@@ -829,6 +912,8 @@ def check(run, only_cases=None):
                 cr.factory_case(run.rng, k)
             for k in range(n_l3):
                 cr.erase_case(run.rng, k)
+            for k in range(n_l0):
+                cr.scope_case(run.rng, k)
         # ---------------- correspondence
         if run.driver_ok:
             idxs = [k for k, l in enumerate(cr.lines) if l is not None]
@@ -856,7 +941,7 @@ def check(run, only_cases=None):
                                                       'case': m})
                 elif e != g:
                     dis.setdefault(w, []).append({'request': l, 'implementation': e, 'model': g, 'source': m})
-            for w in ('erase', 'shape', 'resolve', 'instantiate', 'transform'):
+            for w in ('erase', 'shape', 'scopes', 'resolve', 'instantiate', 'transform'):
                 dd = dis.get(w, [])
                 run.oblige('correspondence:c09.' + w, 'correspondence', not dd and (n_by.get(w, 0) > 0 or only_cases is not None),
                            json.dumps(dd[:2], default=str)[:1800] if dd else ('no case' if not n_by.get(w) else ''))
